@@ -114,6 +114,48 @@ def _sim(case, a):
     return None
 
 
+@monitor('c07_repeat')
+def _repeat(case, a):
+    """the same three-argument bind action value executed several times in one run: every execution decides afresh
+    between continuation and handler (data = number of executions)"""
+    reps = case.data
+    lines = case.stdin.split("\n")[:-1] if case.stdin.endswith("\n") else case.stdin.split("\n")
+    out, vals, pos = "", [], 0
+    for _ in range(reps):
+        line = lines[pos] if pos < len(lines) else None
+        pos += 1 if line is not None else 0
+        if line is not None and line.lstrip("+-").isdigit() and line == line.strip():
+            out += f"k{int(line)}\n"
+            vals.append(str(int(line) + 1))              # continuation: print k<n>, return n+1
+        else:
+            out += "h\n"
+            vals.append("-1")                            # handler: print h, return -1
+    want = ('ok', "IO([" + ", ".join(vals) + "])")
+    got = (a['kind'], (a.get('results') or [None])[0] if a['kind'] == 'ok' else a.get('err'))
+    if got != want:
+        return f"result {got}, oracle {want}"
+    if a['out'] != out:
+        return f"stdout {a['out']!r}, oracle {out!r}"
+    return None
+
+
+def repeat_program(reps):
+    """B = (read a line, parse it as an integer) >>= (λn. print k<n>; return n+1)  with handler (λe. print h; return -1);
+    the program executes the one value B `reps` times and returns the list of results"""
+    first = "(ㄹㅎㄱ (ㄱㅇㄱ ㅈㅅㅎㄴ ㄱㅅㅎㄴ ㅎ) ㄱㄹㅎㄷ)"                                  # fails when executed on a non-numeric line
+    K = render(str_lit("k")); Hs = render(str_lit("h"))
+    k = f"(({K} (ㄱㅇㄱ ㅁㅈㅎㄴ) ㄷㅎㄷ ㅈㄹㅎㄴ) ((ㄱㅇㄴ ㄴ ㄷㅎㄷ) ㄱㅅㅎㄴ ㅎ) ㄱㄹㅎㄷ ㅎ)"
+    h = f"(({Hs} ㅈㄹㅎㄴ) (ㄴㄱ ㄱㅅㅎㄴ ㅎ) ㄱㄹㅎㄷ ㅎ)"
+    B = f"({first} {k} {h} ㄱㄹㅎㄹ)"
+    # b >>= λv1. b >>= λv2. … return [v1 … vn]; inside i nested continuations b is argument 0 of the function i levels out
+    def build(level):
+        if level == reps:
+            return " ".join(f"ㄱㅇ{enc(reps - i)}" for i in range(1, reps + 1)) + f" ㅁㄹㅎ{enc(reps)} ㄱㅅㅎㄴ"
+        return f"ㄱㅇ{enc(level)} ({build(level + 1)} ㅎ) ㄱㄹㅎㄷ"
+    body = build(0)
+    return f"{B} ({body} ㅎ) ㅎㄴ"
+
+
 STDINS = ["", "one\n", "one\ntwo\nthree\n", "no newline", "a\n\nb\n", "가나다\n😀\n", "\n", "x\ny"]
 
 
@@ -145,6 +187,10 @@ def cases(rng, tier):
         yield Case(program=render(bi('ㄱㄹ', m, raw('ㄱㅅ'))), variants=(render(m),), stdin=stdin, tag='right-identity')
         yield Case(program=render(bi('ㄱㄹ', bi('ㄱㄹ', m, k), h)),
                    variants=(render(bi('ㄱㄹ', m, fundef(bi('ㄱㄹ', call(k, arg(0)), h)))),), stdin=stdin, tag='associativity')
+    # one action value, several executions, outcomes alternating between failure and success
+    for reps in (2, 3):
+        for stdin in ["x\n5\n7\n", "5\nx\n7\n", "5\n7\n9\n", "x\ny\nz\n", "x\n5\ny\n", "5\n\n6\n", "1\n"]:
+            yield Case(program=repeat_program(reps), stdin=stdin, tag='repeat', monitor='c07_repeat', data=reps)
     # left identity for a payload that is itself an I/O action (KNOWN FINDING: do_IO auto-joins)
     yield Case(program="(ㄴ ㅁㅈㅎㄴ ㅈㄹㅎㄴ) ㄱㅅㅎㄴ (ㄱ ㄱㅅㅎㄴ ㅎ) ㄱㄹㅎㄷ", variants=("(ㄴ ㅁㅈㅎㄴ ㅈㄹㅎㄴ) (ㄱ ㄱㅅㅎㄴ ㅎ) ㅎㄴ",), tag='left-identity-io-payload',
                monitor='c07_tag')
